@@ -120,6 +120,51 @@ Example legacy_unique_scanner_fine :
   /\ query_ids_legacy all_rows [] (pg (Some 1) None) ex_rows = query_spec [] (pg (Some 1) None) all_rows ex_rows.
 Proof. vm_compute. split; reflexivity. Qed.
 
+(* ---- paging parameters at the numeric extremes -------------------------------------------------- *)
+(* skip 3 with an explicit finite limit of MaxInt64 - 1: skip + limit exceeds MaxInt64, the bound of
+   the result tree must not wrap; the answer is that of `skip 3 limit none`, for the sorting scanner,
+   both id cursors and the paged iteration *)
+Example ex_skip_near_max_limit :
+  query_ids all_rows [by_name true] (pg (Some 3) (Some (max_int64 - 1))) ex_rows = (map s [[97]; [100]], 5)
+  /\ query_ids all_rows [by_name true] (pg (Some 3) limit_none) ex_rows = (map s [[97]; [100]], 5)
+  /\ query_ids all_rows [by_id false] (pg (Some 3) (Some (max_int64 - 1))) ex_rows = (map s [[98]; [97]], 5)
+  /\ query_ids all_rows [] (pg (Some 3) (Some (max_int64 - 3))) ex_rows = (map s [[100]; [101]], 5)
+  /\ iterate_ids all_rows (pg (Some 3) (Some (max_int64 - 1))) ex_rows = map s [[100]; [101]].
+Proof. vm_compute. repeat split; reflexivity. Qed.
+
+(* skip + limit = MaxInt64 exactly (no overflow) and = 2^63 (the first overflowing sum) *)
+Example ex_sum_at_the_overflow_boundary :
+  query_ids has_age [by_age false] (pg (Some 2) (Some (max_int64 - 2))) ex_rows = (map s [[101]; [98]], 4)
+  /\ query_ids has_age [by_age false] (pg (Some 2) (Some (max_int64 - 1))) ex_rows = (map s [[101]; [98]], 4).
+Proof. vm_compute. repeat split; reflexivity. Qed.
+
+(* skip near MaxInt64 / beyond the count: no ids, the count is unaffected; minimal values *)
+Example ex_skip_extremes :
+  query_ids all_rows [by_score true] (pg (Some (max_int64 - 1)) (Some (max_int64 - 1))) ex_rows = ([], 5)
+  /\ query_ids all_rows [by_score true] (pg (Some max_int64) (Some 1)) ex_rows = ([], 5)
+  /\ query_ids all_rows [by_score true] (pg (Some 5) limit_none) ex_rows = ([], 5)
+  /\ query_ids all_rows [by_score true] (pg (Some min_int64) (Some min_int64)) ex_rows
+       = (map s [[99]; [98]; [100]; [101]; [97]], 5)
+  /\ iterate_ids all_rows (pg (Some (max_int64 - 1)) (Some 2)) ex_rows = [].
+Proof. vm_compute. repeat split; reflexivity. Qed.
+
+(* the hypotheses of huge_limit_is_unbounded are satisfiable with skip + limit > MaxInt64 *)
+Example ex_huge_limit_hyps :
+  wf_paging (pg (Some 3) (Some (max_int64 - 1))) /\
+  Z.of_nat (length (filter all_rows ex_rows)) <= max_int64 - 1 /\ 3 + (max_int64 - 1) > max_int64.
+Proof.
+  split; [constructor; intros x E; inversion E; subst; vm_compute; split; discriminate|].
+  vm_compute. split; [discriminate | reflexivity].
+Qed.
+
+(* the unguarded bound of the pinned tree also fails for a FINITE limit once skip + limit wraps:
+   `sort by name skip 3 limit 9223372036854775806` keeps nothing *)
+Example sorting_skip_finite_limit_overflow_refuted :
+  query_ids_legacy all_rows [by_name true] (pg (Some 3) (Some (max_int64 - 1))) ex_rows = ([], 5) /\
+  query_ids_legacy all_rows [by_name true] (pg (Some 3) (Some (max_int64 - 1))) ex_rows
+    <> query_spec [by_name true] (pg (Some 3) (Some (max_int64 - 1))) all_rows ex_rows.
+Proof. vm_compute. split; [reflexivity | discriminate]. Qed.
+
 (* ---- why NaN keys are excluded ----------------------------------------------------------------- *)
 (* a NaN compares "equal" to every float, so the comparison is no preorder:
    -2.0 = NaN, NaN = 1.5 but -2.0 < 1.5 *)
